@@ -63,7 +63,7 @@ type Contract struct {
 	Secret    map[string]bool
 	Lemmas    []Clause
 	Facts     []Clause // mulmono facts etc.
-	Witness   map[string]ast.Expr
+	Witness   map[string][]ast.Expr
 	Fresh     []string // results that are freshly allocated
 	NoAlias   bool
 	Declass   []string
@@ -233,7 +233,7 @@ func (eng *Engine) loadContractFile(file string) error {
 				params = strings.Fields(key[i+8:])
 				key = strings.TrimSpace(key[:i])
 			}
-			cur = &Contract{Key: key, File: file, Loops: map[int]*LoopContract{}, StrictLen: map[string]bool{}, Public: map[string]bool{}, Secret: map[string]bool{}, Witness: map[string]ast.Expr{}, Assume: assume, Params: params}
+			cur = &Contract{Key: key, File: file, Loops: map[int]*LoopContract{}, StrictLen: map[string]bool{}, Public: map[string]bool{}, Secret: map[string]bool{}, Witness: map[string][]ast.Expr{}, Assume: assume, Params: params}
 			if old, dup := eng.contracts[key]; dup {
 				return errf("duplicate contract for %s (also in %s)", key, old.File)
 			}
@@ -341,11 +341,14 @@ func (eng *Engine) loadContractFile(file string) error {
 			cur.Returns = e
 		case "witness":
 			eq := strings.Index(rest, "=")
-			e, err := parseSpecExpr(strings.TrimSpace(rest[eq+1:]))
-			if err != nil {
-				return errf("%v", err)
+			name := strings.TrimSpace(rest[:eq])
+			for _, alt := range strings.Split(rest[eq+1:], " | ") {
+				e, err := parseSpecExpr(strings.TrimSpace(alt))
+				if err != nil {
+					return errf("%v", err)
+				}
+				cur.Witness[name] = append(cur.Witness[name], e)
 			}
-			cur.Witness[strings.TrimSpace(rest[:eq])] = e
 		case "loop":
 			n, err := strconv.Atoi(rest)
 			if err != nil {
@@ -398,6 +401,8 @@ type specEnv struct {
 	fr     *frame            // frame giving access to local variables by name (may be nil)
 	locals map[string]*types.Var
 	sigOverride *types.Signature
+	assume      bool                  // evaluating a hypothesis: existentials are skolemised
+	witness     map[string][]ast.Expr // evaluating a goal: candidates for existential variables
 }
 
 func (ex *exec) evalSpecBool(st *State, fr *frame, e ast.Expr, extra map[string]Value) *Term {
@@ -1240,6 +1245,47 @@ func (env *specEnv) call(c *ast.CallExpr) Value {
 			return And(BoolC(samePtr(a.Base, b.Base)), Eq(a.Off, b.Off))
 		}
 		env.fail("same_array of %T, %T", arg(0), arg(1))
+	case "existsInt":
+		// existsInt(k, body): as a hypothesis k is a fresh integer; as a goal the
+		// contract's `witness k = c1 | c2` candidates are tried (disjunction).
+		id, ok := c.Args[0].(*ast.Ident)
+		if !ok || len(c.Args) != 2 {
+			env.fail("existsInt(k, body)")
+		}
+		sub := *env
+		sub.names = map[string]Value{}
+		for k, v := range env.names {
+			sub.names[k] = v
+		}
+		if env.assume {
+			sub.names[id.Name] = Fresh("ex."+id.Name, IntSort)
+			return sub.toBool(sub.eval(c.Args[1]))
+		}
+		cands := env.witness[id.Name]
+		if len(cands) == 0 {
+			env.fail("existsInt(%s, ...) needs a `witness %s = ...` clause", id.Name, id.Name)
+		}
+		var alts []*Term
+		for _, w := range cands {
+			sub.names[id.Name] = env.eval(w)
+			alts = append(alts, sub.toBool(sub.eval(c.Args[1])))
+		}
+		return Or(alts...)
+	case "redc_witness":
+		// sum of the distinct Montgomery reduction multipliers x_i (first operands of
+		// bits.Mul64(x_i, c) with c the lowest limb of the modulus), weighted 2^(64 i)
+		c := env.flatten(arg(0))[0]
+		acc := IntC64(0)
+		seen := map[*Term]bool{}
+		i := uint(0)
+		for _, r := range ex.mulLog {
+			if r.c == c && !seen[r.x] {
+				seen[r.x] = true
+				acc = IntAdd(acc, IntScale(r.x, two(64*i)))
+				i++
+			}
+		}
+		return acc
 	case "arr":
 		switch v := arg(0).(type) {
 		case *Slice:
